@@ -612,6 +612,96 @@ fn run(ctx: &mut Ctx) {
             }
         }
     }
+    // ---- the command line: `okane primitive eval --date D -X TO -f FILE [--price-db DB] 2 FROM` ----
+    // the same oracle through the documented observation point of the binary (run in-process exactly as main() runs it):
+    // every single fact and every pair of facts over 3 commodities (thorough: both file orders), every (from, to, D),
+    // and `--now` absent (today, after every price), on the first day of the month (before every price) and equal to a
+    // price date: the conversion date is --date, whatever --now says
+    {
+        let ldir = oka::scratch_dir("c09");
+        let lpath = ldir.join(format!("cli-{}.ledger", ctx.shard));
+        let cdb = ldir.join(format!("cli-pricedb-{}.txt", ctx.shard));
+        let mut sets: Vec<Vec<Fact>> = vec![vec![]];
+        for i in 0..a3.len() {
+            sets.push(vec![a3[i]]);
+        }
+        for i in 0..a3.len() {
+            for j in i + 1..a3.len() {
+                if ctx.tier == Tier::Thorough || (i + j) % 3 == 0 {
+                    sets.push(vec![a3[i], a3[j]]);
+                }
+                if ctx.tier == Tier::Thorough {
+                    sets.push(vec![a3[j], a3[i]]);
+                }
+            }
+        }
+        ctx.fact("cli_eval_fact_sets", sets.len() as u64);
+        for facts in &sets {
+            for now in [None, Some("2024-01-01"), Some("2024-01-15")] {
+                if !ctx.next_is_mine() {
+                    ctx.skip_cases(1);
+                    continue;
+                }
+                let (text, db) = render(3, facts);
+                let mut conv = 0u64;
+                ctx.case(
+                    || format!("$ okane primitive eval --date 2024-01-<D> -X <TO> {}-f <ledger> {}2 <FROM>   for every FROM, TO, D in {:?}\n{}-- price db --\n{}", now.map(|n| format!("--now {} ", n)).unwrap_or_default(), if db.is_empty() { "" } else { "--price-db <db> " }, QD, text, db),
+                    || {
+                        std::fs::write(&lpath, &text).expect("write ledger");
+                        if !db.is_empty() {
+                            std::fs::write(&cdb, &db).expect("write price db");
+                        }
+                        for from in 0..3usize {
+                            for to in 0..3usize {
+                                for qd in QD {
+                                    conv += 1;
+                                    let mut args: Vec<String> = vec!["okane".into(), "primitive".into(), "eval".into(), "--date".into(), format!("2024-01-{:02}", qd), "-X".into(), NAMES[to].into(), "-f".into(), lpath.to_string_lossy().to_string()];
+                                    if let Some(n) = now {
+                                        args.push("--now".into());
+                                        args.push(n.into());
+                                    }
+                                    if !db.is_empty() {
+                                        args.push("--price-db".into());
+                                        args.push(cdb.to_string_lossy().to_string());
+                                    }
+                                    args.push(format!("2 {}", NAMES[from]));
+                                    let out = super::c13::run_cli(&args);
+                                    let exp = refprice(3, facts, from, to, qd);
+                                    let q = format!("okane primitive eval --date 2024-01-{:02} -X {} {}... 2 {}", qd, NAMES[to], now.map(|n| format!("--now {} ", n)).unwrap_or_default(), NAMES[from]);
+                                    let ok = out.starts_with("EXIT 0");
+                                    match (&exp, ok) {
+                                        (None, false) => {}
+                                        (None, true) => return Outcome::violation("cli-eval/converted-without-any-chain", format!("{}: no chain of prices dated on or before --date exists, but:\n{}", q, out)),
+                                        (Some(acc), false) => return Outcome::violation("cli-eval/conversion-failed-although-chain-exists", format!("{}: expected one of {:?}, but:\n{}", q, acc.iter().map(|r| r.mul(Q::int(2)).to_string()).collect::<Vec<_>>(), out)),
+                                        (Some(acc), true) => {
+                                            let line = out.lines().nth(1).unwrap_or("").trim();
+                                            let parsed = line.split_once(' ').and_then(|(v, c)| v.parse::<rust_decimal::Decimal>().ok().map(|d| (d, c.to_string())));
+                                            let (v, c) = match parsed {
+                                                Some(x) => x,
+                                                None => return Outcome::violation("cli-eval/unreadable-output", format!("{}:\n{}", q, out)),
+                                            };
+                                            if c != NAMES[to] {
+                                                return Outcome::violation("cli-eval/conversion-result-in-wrong-commodity", format!("{}: printed {}", q, line));
+                                            }
+                                            let good = if from == to { Q::from_decimal(v) == Q::int(2) } else { acc.iter().any(|r| r.mul(Q::int(2)).approx_eq_decimal(v, 20)) };
+                                            if !good {
+                                                return Outcome::violation("cli-eval/conversion-value", format!("{}: expected {} printed {}", q, acc.iter().map(|r| r.mul(Q::int(2)).to_string()).collect::<Vec<_>>().join(" or "), line));
+                                            }
+                                        }
+                                    }
+                                }
+                            }
+                        }
+                        Outcome::pass(format!("cli-eval/facts{}/now-{}", facts.len(), now.unwrap_or("today")))
+                    },
+                );
+                ctx.count("transitions", conv);
+                ctx.count("validated", conv);
+            }
+        }
+        let _ = std::fs::remove_file(&lpath);
+        let _ = std::fs::remove_file(&cdb);
+    }
     if ctx.tier == Tier::Thorough {
         // sets of 4 facts over the 3-commodity alphabet restricted to cost/db sources
         let b: Vec<Fact> = a3.iter().filter(|f| matches!(f.src, Src::Cost | Src::Db) && f.x < f.y).cloned().collect();
